@@ -72,6 +72,12 @@ def _scheme_configs(tier):
                   {"label": "d2", "mc": ["m1"], "maxis": A3, "gaxis": G2, "group": "g2", "scale": "sc2"}],
         groups={"g2": {"link_clp": False, "residual_function": "non_negative_least_squares"}},
         expr_params={"e1": "$k1 + $k2"}, extra_params=["unused"])
+    add("gm-order-dataset-weight", mcs={"m1": {"labels": ["s1", "s2"], "pars": ["k1", "k2"]}},
+        datasets=[{"label": "d1", "mc": ["m1"], "maxis": A3, "gaxis": G3, "weight": True, "order": "gm"}])
+    add("gm-order-model-weight-linked", mcs={"m1": {"labels": ["s1", "s2"], "pars": ["k1", "k2"]}},
+        datasets=[{"label": "d1", "mc": ["m1"], "maxis": A3, "gaxis": [1.0, 2.0], "order": "gm"},
+                  {"label": "d2", "mc": ["m1"], "maxis": A3, "gaxis": [2.0, 3.0], "weight": True, "order": "gm"}],
+        weights=[{"datasets": ["d1"], "global_interval": [1.0, 1.0]}], groups={"default": {"link_clp": True}})
     add("full-model-par", mcs={"m1": {"labels": ["s1", "s2"], "pars": ["k1", "k2"]}}, gmcs={"g1": {"labels": ["a"]}},
         datasets=[{"label": "d1", "mc": ["m1"], "gmc": ["g1"], "gmc_scale": ["gs1"], "maxis": A3, "gaxis": G2}])
     if tier == "thorough":
